@@ -73,7 +73,8 @@ MODS = [None, None, {"op": "extra_nested"}, {"op": "extra_nones"}, {"op": "extra
         {"op": "known_extras"}, {"op": "known_extras"}, {"op": "tiny_cube_values"}, {"op": "mo_aminusb_neg"}, {"op": "unsorted_centres"},
         {"op": "unsorted_centres"}, {"op": "title", "value": "a very long title " * 9},
         {"op": "gen_shell", "angmoms": [1, 0]}, {"op": "gen_shell", "angmoms": [0, 1]}, {"op": "gen_shell", "angmoms": [0, 0, 0]},
-        {"op": "gen_shell", "angmoms": [2, 1]}]
+        {"op": "gen_shell", "angmoms": [2, 1]}, {"op": "gen_contraction", "scale": 0.0}, {"op": "gen_contraction", "scale": 0.0},
+        {"op": "bonds_unsorted"}, {"op": "bonds_unsorted"}]
 # two mods at once (e.g. occs_aminusb together with the optional extras a writer looks for)
 MOD_PAIRS = [[{"op": "mo_aminusb"}, {"op": "known_extras"}], [{"op": "gen_contraction"}, {"op": "known_extras"}],
              [{"op": "mo_aminusb"}, {"op": "gen_shell", "angmoms": [1, 0]}], [{"op": "conv_signs"}, {"op": "known_extras"}]]
